@@ -5,8 +5,8 @@
     rogw/tranp/dsn/dsn.py                 DSN.join / elements / elem_counts
     rogw/tranp/syntax/ast/path.py         EntryPath.join / identify / first / last / shift / de_identify / __break_tag
     rogw/tranp/syntax/ast/finder.py       ASTFinder.full_pathfy / pluck
-    rogw/tranp/syntax/ast/cache.py        EntryCache.add / by / index_of / group_by
-    rogw/tranp/syntax/node/query.py       Nodes.by / parent / ancestor / siblings / children / id
+    rogw/tranp/syntax/ast/cache.py        EntryCache.add / by / index_of / group_by (depth 1 as `groupBy1`, any depth as `groupBy`)
+    rogw/tranp/syntax/node/query.py       Nodes.by / parent / ancestor / siblings / children / expand / values / id
     rogw/tranp/syntax/node/resolver.py    NodeResolver.resolve (first accepting class, instance cached by path)
     rogw/tranp/syntax/ast/resolver.py     Resolver.register / resolve / fallback
 
@@ -21,7 +21,7 @@ open Tranp
 
 /-- Exceptions the modelled code can raise (same enum as `harness.common.exc_enum`). -/
 inductive Err where
-  | nodeNotFound | valueError | unresolvedNode | keyError | indexError
+  | nodeNotFound | valueError | unresolvedNode | keyError | indexError | logic | recursionError
 deriving DecidableEq, Repr
 
 def Err.toString : Err → String
@@ -30,6 +30,8 @@ def Err.toString : Err → String
   | .unresolvedNode => "Errors.UnresolvedNode"
   | .keyError => "KeyError"
   | .indexError => "IndexError"
+  | .logic => "Errors.Logic"
+  | .recursionError => "RecursionError"
 
 /-- `Entry` as seen through the `Entry` interface (`EntryOfDict` / `EntryOfLark`). -/
 inductive Entry where
@@ -293,6 +295,41 @@ def groupBy1 (c : Cache) (via : Str) : Except Err (List (Str × Entry)) := do
 
 end Cache
 
+/-- `entries.update(sub)`: successive `d[k] = v`. -/
+def dictUpdate {α : Type} (d sub : List (Str × α)) : List (Str × α) :=
+  sub.foldl (fun d kv => dictInsert d kv.1 kv.2) d
+
+namespace Cache
+
+/-- the `for key in self.__children[via]` loop of `group_by` (`cache.py:67-71`), `rec` = the recursive call with
+    `depth - 1`: `entries[path] = self.by(path)` then `entries.update(self.group_by(path, depth - 1))`. -/
+def groupLoop (c : Cache) (via : Str) (rec : Str → Except Err (List (Str × Entry))) :
+    List Str → List (Str × Entry) → Except Err (List (Str × Entry))
+  | [], acc => .ok acc
+  | key :: keys, acc => do
+    let path := dsnJoin [via, key]
+    let ce ← c.by_ path
+    let sub ← rec path
+    groupLoop c via rec keys (dictUpdate (dictInsert acc path ce) sub)
+
+/-- `EntryCache.group_by(via, depth)` (`cache.py:49-73`) for any depth; `depth = -1` (any negative) is unbounded, so the
+    recursion carries fuel (running out = `RecursionError`; `groupBy_fuel` in the lemmas: never for a cache of `Nodes`). -/
+def groupBy (c : Cache) : Nat → Str → Int → Except Err (List (Str × Entry))
+  | 0, _, _ => .error .recursionError
+  | fuel + 1, via, depth =>
+    if !c.exists_ via then .error .nodeNotFound
+    else if depth == 0 then .ok []
+    else
+      match c.by_ via with
+      | .error er => .error er
+      | .ok e => groupLoop c via (fun path => groupBy c fuel path (depth - 1)) (c.childKeys via) [(via, e)]
+
+/-- `group_by` with fuel that always suffices: every recursion step moves to a longer existing key. -/
+def groupByAll (c : Cache) (via : Str) (depth : Int) : Except Err (List (Str × Entry)) :=
+  c.groupBy (c.entries.length + 1) via depth
+
+end Cache
+
 /-- `Nodes.__init__`: the cache filled from `full_pathfy(root)`. -/
 def mkCache (root : Entry) : Cache :=
   (fullPathfy root).foldl (fun c kv => c.add kv.1 kv.2) {}
@@ -440,6 +477,67 @@ def nodeBy (w : World) (insts : List (Str × Str)) (path : Str) : Except Err (St
   let e ← w.cache.by_ path
   resolveCached w insts e.name path
 
+/-! ### `Nodes.expand` / `Nodes.values` -/
+
+/-- `s.split(sep)` for a non-empty multi-character separator (left to right, non-overlapping); fuel = `len(s) + 1`. -/
+def splitOnStrAux (sep : Str) : Nat → Str → Str → List Str
+  | 0, acc, rest => [acc.reverse ++ rest]
+  | _ + 1, acc, [] => [acc.reverse]
+  | fuel + 1, acc, c :: cs =>
+    if Str.startsWith (c :: cs) sep then acc.reverse :: splitOnStrAux sep fuel [] ((c :: cs).drop sep.length)
+    else splitOnStrAux sep fuel (c :: acc) cs
+
+def splitOnStr (sep s : Str) : List Str := splitOnStrAux sep (s.length + 1) [] s
+
+/-- `DSN.relativefy(origin, starts)` (`dsn.py`): `origin.split(starts)[1]` is the text between the first and the
+    *second* occurrence of `starts` — modelled as written. `str.split('')` raises ValueError. -/
+def dsnRelativefy (origin starts : Str) : Except Err Str :=
+  if starts != origin && !(Str.startsWith origin (starts ++ dot)) then .ok origin
+  else match starts with
+    | [] => .error .valueError
+    | _ => match (splitOnStr starts origin)[1]? with
+      | none => .error .indexError
+      | some piece => .ok (dsnJoin (Str.splitOn '.' piece))
+
+/-- `EntryPath(path).relativefy(via).de_identify().elements` (`path.py` relativefy raises `Errors.Logic` unless `path`
+    starts with `via + '.'`). -/
+def relTags (path via : Str) : Except Err (List Str) :=
+  if !(Str.startsWith path (via ++ dot)) then .error .logic
+  else (dsnRelativefy path via).map (fun rel => dsnElements (stripIndexGroups rel))
+
+/-- `tester(entry, path)` of `Nodes.expand` (`query.py`), threading `record`. -/
+def expandTest (w : World) (via : Str) (record : List Str) (path : Str) (e : Entry) : Except Err (Bool × List Str) :=
+  if via == path then .ok (false, record)
+  else if record.any (fun cached => Str.startsWith path cached) then .ok (false, record)
+  else
+    match lastTag path with
+    | .error er => .error er
+    | .ok t =>
+      if w.table.canResolve t then .ok (true, record ++ [path])
+      else if e.hasChild then .ok (false, record)
+      else (relTags path via).map (fun tags => (!(tags.any w.table.canResolve), record))
+
+/-- the dict comprehension `{path: entry for path, entry in under_entries if tester(entry, path)}` (keys only). -/
+def expandLoop (w : World) (via : Str) : List (Str × Entry) → List Str → Except Err (List Str)
+  | [], _ => .ok []
+  | (path, e) :: rest, record =>
+    match expandTest w via record path e with
+    | .error er => .error er
+    | .ok (keep, record') =>
+      match expandLoop w via rest record' with
+      | .error er => .error er
+      | .ok tl => .ok (if keep then path :: tl else tl)
+
+/-- `Nodes.expand(via)` before resolution: `group_by(via, depth=3)` filtered by `tester`. -/
+def expandPaths (w : World) (via : Str) : Except Err (List Str) :=
+  match w.cache.groupByAll via 3 with
+  | .error er => .error er
+  | .ok g => expandLoop w via g []
+
+/-- `Nodes.values(via)`: non-empty values of `group_by(via)` (unbounded depth) in dict order. -/
+def valuesOf (w : World) (via : Str) : Except Err (List Str) :=
+  (w.cache.groupByAll via (-1)).map (fun g => (g.map (fun kv => kv.2.value)).filter (fun v => !v.isEmpty))
+
 /-! ### query histories (the "for all permutations of node queries" quantifier of the property) -/
 
 /-- a history of `Nodes.by` queries threading `NodeResolver.__insts`; a query that raises leaves the instance cache
@@ -506,5 +604,77 @@ def childElems : Entry → List Elem
 def nearestRes (canRes : Str → Bool) : List Elem → Option (List Elem)
   | [] => none
   | el :: rest => if canRes el.tag then some (el :: rest) else nearestRes canRes rest
+
+/-! ### specification functions for `group_by` / `expand` / `values` (used in theorem statements only) -/
+
+mutual
+/-- entries of the subtree of `e` (at path `p`) down to relative level `d` (every level when `d < 0`), in pre-order -/
+def under (d : Int) : Entry → Path → List (Path × Entry)
+  | .tree t cs, p => (p, .tree t cs) :: (if d == 0 then [] else underList (d - 1) cs cs 0 p)
+  | .token t v, p => [(p, .token t v)]
+  | .empty, p => [(p, .empty)]
+def underList (d : Int) (all : List Entry) : List Entry → Nat → Path → List (Path × Entry)
+  | [], _, _ => []
+  | c :: rest, i, p => under d c (p ++ [elemFor all i c]) ++ underList d all rest (i + 1) p
+end
+
+mutual
+/-- what `Nodes.expand` should return for an entry `e` at path `pc` strictly below `via`, with `d` more levels allowed:
+    the entry itself when its tag is resolvable or it is a terminal, else the same for its children -/
+def expandAbs (canRes : Str → Bool) (d : Nat) : Entry → Path → List Path
+  | .tree t cs, pc =>
+    if canRes t then [pc] else
+    match d with
+    | 0 => []
+    | d' + 1 => expandAbsList canRes d' cs cs 0 pc
+  | .token _ _, pc => [pc]
+  | .empty, pc => [pc]
+def expandAbsList (canRes : Str → Bool) (d : Nat) (all : List Entry) : List Entry → Nat → Path → List Path
+  | [], _, _ => []
+  | c :: rest, i, p => expandAbs canRes d c (p ++ [elemFor all i c]) ++ expandAbsList canRes d all rest (i + 1) p
+end
+
+/-- `Nodes.expand(via)` on the tree, `levels` levels below `via` (the Python looks 3 levels down) -/
+def expandOf (canRes : Str → Bool) (levels : Nat) (x : Entry) (q : Path) : List Path :=
+  match x, levels with
+  | .tree _ cs, l + 1 => expandAbsList canRes l cs cs 0 q
+  | _, _ => []
+
+mutual
+/-- the same without a depth cap: nearest resolvable descendants and the terminals with no resolvable ancestor below `via` -/
+def expandFull (canRes : Str → Bool) : Entry → Path → List Path
+  | .tree t cs, pc => if canRes t then [pc] else expandFullList canRes cs cs 0 pc
+  | .token _ _, pc => [pc]
+  | .empty, pc => [pc]
+def expandFullList (canRes : Str → Bool) (all : List Entry) : List Entry → Nat → Path → List Path
+  | [], _, _ => []
+  | c :: rest, i, p => expandFull canRes c (p ++ [elemFor all i c]) ++ expandFullList canRes all rest (i + 1) p
+end
+
+def expandFullOf (canRes : Str → Bool) (x : Entry) (q : Path) : List Path :=
+  match x with
+  | .tree _ cs => expandFullList canRes cs cs 0 q
+  | _ => []
+
+/-- side condition 1 of `expand_spec` (decidable): among the entries `group_by(via, 3)` yields, a path whose last tag is
+    resolvable is a *string* prefix of another one only if it is an element-wise prefix (an ancestor or the path itself).
+    Fails e.g. for sibling tags `list` / `list_comp`: `record` then swallows the sibling (`path.startswith(cached)`). -/
+def PrefixSafe (w : World) (q : Path) (x : Entry) : Prop :=
+  ∀ R ∈ (under 3 x q).map (·.1), ∀ P ∈ (under 3 x q).map (·.1),
+    R.getLast?.map (fun el => w.table.canResolve el.tag) = some true →
+    Str.startsWith (encodePath P) (encodePath R) = true → R.isPrefixOf P = true
+
+instance (w : World) (q : Path) (x : Entry) : Decidable (PrefixSafe w q x) := by
+  unfold PrefixSafe; exact inferInstance
+
+/-- side condition 2 of `expand_spec` (decidable): for the terminals below `via`, `relativefy(via).de_identify().elements`
+    is the list of tags of the path elements below `via`. Fails when the string `via` occurs again further right in the
+    path (`origin.split(starts)[1]`), e.g. `via = r`, path `r.ar.t`. -/
+def RelativefySafe (q : Path) (x : Entry) : Prop :=
+  ∀ pe ∈ (under 3 x q).tail, pe.2.hasChild = false →
+    (relTags (encodePath pe.1) (encodePath q)).toOption = some ((pe.1.drop q.length).map (·.tag))
+
+instance (q : Path) (x : Entry) : Decidable (RelativefySafe q x) := by
+  unfold RelativefySafe; exact inferInstance
 
 end Tranp.AstPath
